@@ -46,7 +46,7 @@ Readings(c) == IF c.k = "oj" THEN <<[mode |-> "indent", ind |-> IF c.tab THEN 1 
 Opt == Readings(Case)[rd]
 
 Cnt0 == [x \in {"n", "nbad", "calls", "lit", "atom", "one-line", "broken", "table", "tight", "empty-object-broken", "empty-broken",
-                 "drift_padded_one_line", "drift_tight_sen_no_separator", "drift_second_reading", "drift_step1"} |-> 0]
+                 "drift_padded_one_line", "drift_aligned_row_beyond_width", "drift_tight_sen_no_separator", "drift_second_reading", "drift_step1"} |-> 0]
 TraceInit == /\ cse = 1 /\ rd = 1 /\ pos = 1 /\ ph = "start" /\ first = <<>> /\ bad = <<>> /\ cnt = Cnt0
              /\ todo = <<>> /\ col = 0 /\ out = <<>> /\ run = <<>>
              /\ TLCSet(1, <<>>) /\ TLCSet(2, Cnt0)
@@ -93,6 +93,7 @@ Apply(r) ==
   ELSE /\ todo' = r.S.todo /\ col' = r.S.col /\ pos' = r.S.pos
        /\ cnt' = [cnt EXCEPT ![r.rule] = @ + 1,
                              !.drift_padded_one_line = @ + (IF r.rule = "one-line" /\ r.drift THEN 1 ELSE 0),
+                             !.drift_aligned_row_beyond_width = @ + (IF r.rule = "table" /\ r.drift THEN 1 ELSE 0),
                              !.drift_tight_sen_no_separator = @ + (IF r.rule = "tight" /\ r.drift THEN 1 ELSE 0)]
        /\ UNCHANGED <<out, run, cse, rd, ph, first, bad>>
 Running == cse <= N /\ ph = "run" /\ todo # <<>>
